@@ -391,7 +391,20 @@ def check_single_variants(s, pos, res):
                     ({'environments': False}, {'enable_environments': False}),
                     ({'brackets_are_chars': False},
                      {'latex_group_delimiters': [('{', '}'), ('[', ']')]}),
-                    ({'brackets_are_chars': True}, {})):
+                    ({'brackets_are_chars': True}, {}),
+                    # the options combined (each pair once), and the compatibility-only flag
+                    ({'brackets_are_chars': False, 'environments': False},
+                     {'latex_group_delimiters': [('{', '}'), ('[', ']')],
+                      'enable_environments': False}),
+                    ({'include_brace_chars': [('[', ']')], 'environments': False},
+                     {'latex_group_delimiters': [('{', '}'), ('[', ']')],
+                      'enable_environments': False}),
+                    ({'include_brace_chars': [('<', '>')], 'environments': True},
+                     {'latex_group_delimiters': [('{', '}'), ('<', '>')]}),
+                    ({'environments': False, 'keep_inline_math': True},
+                     {'enable_environments': False}),
+                    ({'brackets_are_chars': True, 'environments': False},
+                     {'enable_environments': False})):
         case = {'what': 'token', 's': s, 'pos': pos, 'arg': sorted(kw)}
 
         def tk(t):
@@ -429,26 +442,29 @@ MISSING_ARG_TAILS = ['$y$', '\\(y\\)', '\\[y\\] z', '$$y$$']
 SUFFIXES_ENV = [' body', '', 'body', '\n\nz']
 
 
-def spellings(name, argspec, env=False):
+def spellings(name, argspec, env=False, math=False):
     from pylatexenc.macrospec import (MacroSpec, EnvironmentSpec, MacroStandardArgsParser,
                                       std_macro, std_environment)
     S = EnvironmentSpec if env else MacroSpec
     std = std_environment if env else std_macro
-    out = [('new:arguments_spec_list', lambda: S(name, argspec)),
-           ('new:arguments_spec_list-kw', lambda: S(name, arguments_spec_list=argspec)),
-           ('legacy:args_parser=string', lambda: S(name, args_parser=argspec)),
+    # math: the environment is declared with the pylatexenc-2 keyword is_math_mode=True
+    kw = {'is_math_mode': True} if math else {}
+    out = [('new:arguments_spec_list', lambda: S(name, argspec, **kw)),
+           ('new:arguments_spec_list-kw', lambda: S(name, arguments_spec_list=argspec, **kw)),
+           ('legacy:args_parser=string', lambda: S(name, args_parser=argspec, **kw)),
            ('legacy:args_parser=MacroStandardArgsParser',
-            lambda: S(name, args_parser=MacroStandardArgsParser(argspec))),
+            lambda: S(name, args_parser=MacroStandardArgsParser(argspec), **kw)),
            ('legacy:positional-MacroStandardArgsParser',
-            lambda: S(name, MacroStandardArgsParser(argspec))),
-           ('helper:std(name, argspec)', lambda: std(name, argspec)),
-           ('helper:std((name, argspec))', lambda: std((name, argspec))),
-           ('helper:std(name, None, argspec)', lambda: std(name, None, argspec))]
+            lambda: S(name, MacroStandardArgsParser(argspec), **kw)),
+           ('helper:std(name, argspec)', lambda: std(name, argspec, **kw)),
+           ('helper:std((name, argspec))', lambda: std((name, argspec), **kw)),
+           ('helper:std(name, None, argspec)', lambda: std(name, None, argspec, **kw))]
     rest = argspec[1:] if argspec[:1] == '[' else argspec
     if all(c == '{' for c in rest):
         optarg = argspec[:1] == '['
-        out.append(('helper:std(name, optarg, numargs)', lambda: std(name, optarg, len(rest))))
-        out.append(('helper:std((name, optarg, numargs))', lambda: std((name, optarg, len(rest)))))
+        out.append(('helper:std(name, optarg, numargs)', lambda: std(name, optarg, len(rest), **kw)))
+        out.append(('helper:std((name, optarg, numargs))',
+                    lambda: std((name, optarg, len(rest)), **kw)))
     return out
 
 
@@ -483,13 +499,13 @@ def call_strings(argspec):
     return outs
 
 
-def check_spellings(argspec, res, env=False):
+def check_spellings(argspec, res, env=False, math=False):
     from pylatexenc.macrospec import LatexContextDb
     from pylatexenc.latexwalker import LatexWalker
     from pylatexenc.latexnodes.parsers import LatexGeneralNodesParser
     name = 'zzenv' if env else 'zzmac'
     results = {}
-    for label, mk in spellings(name, argspec, env):
+    for label, mk in spellings(name, argspec, env, math):
         try:
             spec = mk()
         except Exception as e:
@@ -537,7 +553,16 @@ def check_spellings(argspec, res, env=False):
                 if not env and hasattr(node, 'nodeoptarg') and hasattr(node, 'nodeargs'):
                     views = [norm(dump(node.nodeoptarg, state=False)),
                              [norm(dump(a, state=False)) for a in (node.nodeargs or [])]]
-                return {'pos': node.pos, 'pos_end': node.pos_end,
+                modes = None
+                if env:
+                    # recorded math mode of the arguments and of the body
+                    from ..treedump import walk as _walk
+                    modes = [[bool(x.parsing_state.in_math_mode) for a in
+                              (node.nodeargd.argnlist if node.nodeargd is not None else [])
+                              if a is not None for x in _walk(a) if kind(x) != 'list'],
+                             [bool(x.parsing_state.in_math_mode) for x in _walk(node.nodelist)
+                              if kind(x) != 'list']]
+                return {'pos': node.pos, 'pos_end': node.pos_end, 'modes': modes,
                         'argnlist': argd.get('argnlist'), 'views': views,
                         'rest': [norm(dump(x, state=False)) for x in nl.nodelist[1:]]}
             results[(label, pattern, ws)] = (attempt(run), src)
@@ -563,13 +588,13 @@ def check_spellings(argspec, res, env=False):
                          'argspec %r, call %r (%s): (nodeoptarg, nodeargs) = %s, documented rule '
                          'gives %s' % (argspec, src, label, str(r[1]['views'])[:200],
                                        str(want)[:200]),
-                         {'what': 'spelling', 'argspec': argspec, 'env': env})
+                         {'what': 'spelling', 'argspec': argspec, 'env': env, 'math': math})
     # compare every spelling with the new arguments_spec_list spelling
     for (label, pattern, ws), (r, src) in sorted(results.items()):
         base = results.get(('new:arguments_spec_list', pattern, ws))
         if base is None or label == 'new:arguments_spec_list':
             continue
-        case = {'what': 'spelling', 'argspec': argspec, 'env': env}
+        case = {'what': 'spelling', 'argspec': argspec, 'env': env, 'math': math}
         if r[0] == 'exc':
             res.fail('c16:spelling-raises:%s' % label, '%r on %r: %s' % (label, src, r), case)
         elif r[0] == 'parse-error' and base[0][0] == 'parse-error':
@@ -577,14 +602,15 @@ def check_spellings(argspec, res, env=False):
         elif r != base[0]:
             what = 'failure-parity' if r[0] != base[0][0] else 'nodes'
             if r[0] == 'ok' and base[0][0] == 'ok':
-                for fld in ('argnlist', 'pos', 'pos_end', 'views', 'rest'):
+                for fld in ('argnlist', 'pos', 'pos_end', 'views', 'rest', 'modes'):
                     if r[1][fld] != base[0][1][fld]:
                         what = fld
                         break
             res.fail('c16:spelling-differs:%s:%s%s' % (label, what, ':after-space' if ws else ''),
                      'argspec %r, call %r: %s gives %s, arguments_spec_list gives %s'
                      % (argspec, src, label, str(r)[:250], str(base[0])[:250]), case)
-    res.label('spellings:%s' % ('env' if env else 'macro'), {'what': 'spelling', 'argspec': argspec, 'env': env})
+    res.label('spellings:%s' % (('env-is_math_mode' if math else 'env') if env else 'macro'),
+              {'what': 'spelling', 'argspec': argspec, 'env': env, 'math': math})
     if argspec:
         res.nontriv_distinct(len(results))
 
@@ -658,7 +684,7 @@ def plan(tier, seed):
     shards += [('legacy-states',)]
     return {'shards': shards, 'bounds': {'soup_len': L, 'alphabet': len(ALPHA),
                                          'argspecs': len(ARGSPECS)},
-            'required_classes': ['spellings:macro', 'spellings:env',
+            'required_classes': ['spellings:macro', 'spellings:env', 'spellings:env-is_math_mode',
                                  'both-succeed:get_latex_expression',
                                  'both-succeed:get_latex_nodes(stop_upon_closing_brace=})',
                                  'both-succeed:get_latex_nodes(stop_upon_end_environment)',
@@ -697,6 +723,8 @@ def run_shard(shard, res):
             if i % NSHARDS == k:
                 check_spellings(a, res, env=False)
                 check_spellings(a, res, env=True)
+                if len(a) <= 3:
+                    check_spellings(a, res, env=True, math=True)
         res.exhaustive = True
 
 
@@ -705,7 +733,8 @@ def check_case(case, res):
     if w == 'legacy-states':
         check_legacy_states(res)
     elif w == 'spelling':
-        check_spellings(case['argspec'], res, env=case.get('env', False))
+        check_spellings(case['argspec'], res, env=case.get('env', False),
+                        math=case.get('math', False))
     elif w in ('nodes', 'single') or True:
         import zlib
         _MODE['tolerant'] = zlib.crc32(case['s'].encode('utf-8')) % 3 == 0
